@@ -413,7 +413,11 @@ func randModel(r *rand.Rand) *model {
 		fs = append(fs, field{Name: fmt.Sprintf("F%d", i), Col: fmt.Sprintf("c%d", i), Perm: perms[r.Intn(len(perms))], Mig: r.Intn(8) == 0})
 	}
 	if r.Intn(2) == 0 {
-		fs = append(fs, field{Name: "Upd", Col: "upd", Perm: "rw", Auto: true})
+		perm := "rw"
+		if r.Intn(3) == 0 { // a tracked time that only one path may write
+			perm = perms[r.Intn(len(perms))]
+		}
+		fs = append(fs, field{Name: "Upd", Col: "upd", Perm: perm, Auto: true})
 	}
 	if r.Intn(2) == 0 {
 		fs = append(fs, field{Name: "D1", Col: "d1", Perm: perms[r.Intn(len(perms)-1)], Dflt: true, Dbd: r.Intn(2) == 0})
@@ -471,8 +475,8 @@ func randWrite(r *rand.Rand, m *model) write {
 	if w.Op == "create_map" || w.Op == "create_maps" || w.Op == "create" || w.Op == "create_slice" || w.Op == "upsert" {
 		w.Star = false
 	}
-	if w.Op == "upsert" { // a Select without the key would turn the upsert into a plain insert
-		w.Sel = nil
+	if w.Op == "upsert" && len(w.Sel) > 0 { // a Select without the key would turn the upsert into a plain insert
+		w.Sel = append([]string{"ID"}, w.Sel...)
 	}
 	if w.Op == "create_map" || w.Op == "create_maps" { // a map key naming an ignored field makes gorm emit invalid SQL (observation, DESIGN section 7)
 		var keep []payItem
